@@ -164,7 +164,56 @@ func SolveAll(v *FnVC, timeoutMs int, scratch string, sem chan struct{}) (vacuou
 		}()
 	}
 	wg.Wait()
+	if os.Getenv("GOVC_SPLIT") != "" {
+		for _, o := range v.obligs {
+			if o.IsCover || o.Result == "unsat" {
+				continue
+			}
+			for k, c := range flattenAnd(o.Form) {
+				q := fmt.Sprintf("%s(assert (and %s (not %s)))\n(check-sat)\n", ctxText, o.Guard, c)
+				out, _ := runSolver(solvers[0], q, 5000)
+				first := strings.TrimSpace(strings.SplitN(strings.TrimSpace(out), "\n", 2)[0])
+				if first != "unsat" {
+					if len(c) > 300 {
+						c = c[:300]
+					}
+					o.Text += fmt.Sprintf("\n              conjunct %d: %s: %s", k, first, c)
+				}
+			}
+		}
+	}
 	return
+}
+
+// flattenAnd splits an SMT term into its top-level conjuncts (nested binary ands flattened).
+func flattenAnd(f string) []string {
+	f = strings.TrimSpace(f)
+	if !strings.HasPrefix(f, "(and ") {
+		return []string{f}
+	}
+	var parts []string
+	body := f[5 : len(f)-1]
+	d, start := 0, 0
+	for i := 0; i <= len(body); i++ {
+		if i == len(body) || (body[i] == ' ' && d == 0) {
+			if i > start {
+				parts = append(parts, body[start:i])
+			}
+			start = i + 1
+			continue
+		}
+		switch body[i] {
+		case '(':
+			d++
+		case ')':
+			d--
+		}
+	}
+	var out []string
+	for _, p := range parts {
+		out = append(out, flattenAnd(p)...)
+	}
+	return out
 }
 
 func solveOne(ctxText string, o *Oblig, timeoutMs int, sem chan struct{}) {
